@@ -26,6 +26,17 @@ partial def collectEnums (name : String) (j : Json) : List DEnum :=
   | .arr xs => xs.toList.flatMap (collectEnums name)
   | _ => []
 
+/-- every string under a `type` key inside schemas (a PROPERTY named `type` has an object as its value, not a string) -/
+partial def collectTypes : Json → List String
+  | .obj kvs => kvs.toList.flatMap fun (k, v) =>
+      if k = "type" then (match v with
+        | .str s => [s]
+        | .arr xs => xs.toList.filterMap fun x => match x with | .str s => some s | _ => none
+        | o => collectTypes o)
+      else if k = "example" || k = "default" || k = "enum" || k = "securitySchemes" || k = "security" then [] else collectTypes v
+  | .arr xs => xs.toList.flatMap collectTypes
+  | _ => []
+
 def docOfJson (doc : Json) : Doc :=
   let comps := ((doc.getObjVal? "components").toOption.bind (·.getObjVal? "schemas" |>.toOption)).getD Json.null
   { ops := (docOperations doc).map fun (v, p, op) =>
@@ -39,7 +50,8 @@ def docOfJson (doc : Json) : Doc :=
     title := jstrD ((doc.getObjVal? "info").toOption.getD Json.null) "title",
     version := jstrD ((doc.getObjVal? "info").toOption.getD Json.null) "version",
     servers := (jarrD doc "servers").toList.map (jstrD · "url"),
-    schemes := (objEntries (((doc.getObjVal? "components").toOption.bind (·.getObjVal? "securitySchemes" |>.toOption)).getD Json.null)).map (·.1) }
+    schemes := (objEntries (((doc.getObjVal? "components").toOption.bind (·.getObjVal? "securitySchemes" |>.toOption)).getD Json.null)).map (·.1),
+    schemaTypes := collectTypes comps ++ collectTypes ((doc.getObjVal? "paths").toOption.getD Json.null) }
 
 /-- C08 on whatever documents were emitted -/
 def checkC08 (d : IRDoc) (impl : Json) : PropOut := Id.run do
